@@ -803,35 +803,41 @@ def readInstance {F} (ops : FloatOps F) (lex : LexCfg) (cfg : RWCfg) (d : Dict) 
         let (c2, s5) := s4.peekC
         if c2 == 38 then throw (.unmodelled "&SCOPE")
         let env : Env F := { ops := ops, lex := lex, cfg := cfg, dict := d, lookup := Mgr.lookup d st.mgr }
+        -- `obj->STEPread( … )` is virtual: the object made in pass 1 decides how the record is read, whatever it looks like
+        let rd (s : IStream) : M (Sev × List (MPart F) × IStream) := do
+          if inst.complex then
+            let r ← complexSTEPread env (cfg.complexPartStrict.getD strict) inst.parts s
+            pure (r.sev, r.parts, r.s)
+          else
+            let attrs := match inst.parts with
+              | p :: _ => (match d.entity? p.name with | some e => e.attrs | none => [])
+              | [] => []
+            let r ← instSTEPread env strict attrs s
+            let parts' := match inst.parts with
+              | p :: ps => { p with vals := r.vals } :: ps
+              | [] => []
+            pure (r.sev, parts', r.s)
         if c2 == 40 then
-          if !inst.complex then throw (.unmodelled "internal-mapping object read from a subtype/supertype record")
-          let r ← complexSTEPread env (cfg.complexPartStrict.getD strict) inst.parts s5
-          let s6 := readTokenSeparator r.s
+          let (sev, parts', sR) ← rd s5
+          let s6 := readTokenSeparator sR
           let (c3, s7) := s6.peekC
           let s8 := if c3 != 69 then (shiftInto c3 s7).2 else s7
-          let inst' := { inst with parts := r.parts, state := stateOf r.sev }
+          let inst' := { inst with parts := parts', state := stateOf sev }
           if cfg.complexReportsError then
-            pure ({ st with mgr := st.mgr.update inst', fileErr := appendEntityError st.fileErr r.sev, s := s8 }, some .null)
-          else pure ({ st with mgr := st.mgr.update inst', s := s8 }, some r.sev)
+            pure ({ st with mgr := st.mgr.update inst', fileErr := appendEntityError st.fileErr sev, s := s8 }, some .null)
+          else pure ({ st with mgr := st.mgr.update inst', s := s8 }, some sev)
         else
-          if inst.complex then throw (.unmodelled "complex object read from a simple record")
           let s6 := readTokenSeparator s5
           let (c3, s7) := s6.peekC
           if c3 == 33 then throw (.unmodelled "user-defined entity")
           let (_, s8) := readStdKeyword s7
           let s9 := readTokenSeparator s8
-          let attrs := match inst.parts with
-            | p :: _ => (match d.entity? p.name with | some e => e.attrs | none => [])
-            | [] => []
-          let r ← instSTEPread env strict attrs s9
-          let s10 := readTokenSeparator r.s
+          let (sev, parts', sR) ← rd s9
+          let s10 := readTokenSeparator sR
           let (c4, s11) := s10.peekC
           let s12 := if c4 != 69 then (shiftInto c4 s11).2 else s11
-          let parts' := match inst.parts with
-            | p :: ps => { p with vals := r.vals } :: ps
-            | [] => []
-          let inst' := { inst with parts := parts', state := stateOf r.sev }
-          pure ({ st with mgr := st.mgr.update inst', fileErr := appendEntityError st.fileErr r.sev, s := s12 },
+          let inst' := { inst with parts := parts', state := stateOf sev }
+          pure ({ st with mgr := st.mgr.update inst', fileErr := appendEntityError st.fileErr sev, s := s12 },
                 some .null)
 
 def readData2Loop {F} (ops : FloatOps F) (lex : LexCfg) (cfg : RWCfg) (d : Dict) (strict : Bool) :
